@@ -322,29 +322,35 @@ fn chunks_of(m: &[u8], sizes: &[usize]) -> Vec<Vec<u8>> {
 }
 
 // SWEEP <api> <init> <restore> <caps> <b0> <slices|-> <cont,cont,..> <pre tasks joined by +|->
-fn sweep(t: &[&str]) -> String {
-    let (api, init, restore, caps) = (t[1], t[2], t[3], t[4]);
-    let b0: u8 = t[5].parse().unwrap();
-    let slices = parse_list(t[6]);
-    let conts: Vec<Vec<u8>> = t[7].split(',').map(|c| unhex(c)).collect();
-    let pre: Vec<String> = if t[8] == "-" { Vec::new() } else { t[8].split('+').map(|x| x.to_string()).collect() };
-    let pre_total: usize = pre.iter().map(|x| if x.starts_with('C') && x != "C-" { (x.len() - 1) / 2 } else { 0 }).sum();
+fn task_list(s: &str) -> Vec<String> {
+    if s == "-" {
+        Vec::new()
+    } else {
+        s.split('+').map(|x| x.to_string()).collect()
+    }
+}
+fn task_bytes(ts: &[String]) -> usize {
+    ts.iter().map(|x| if x.starts_with('C') && x != "C-" { (x.len() - 1) / 2 } else { 0 }).sum()
+}
+
+// for b1 in 0..=255, for every member gen(b1): script = pre F chunks(member) post X
+fn sweep_core(api: &str, init: &str, restore: &str, caps: &str, slices: &[usize], pre: &[String], post: &[String], gen: &dyn Fn(u8) -> Vec<Vec<u8>>) -> String {
+    let extra = task_bytes(pre) + task_bytes(post);
     let ncaps = parse_list(if caps.starts_with("p:") { &caps[2..] } else { caps }).len();
     let mut h = 0u64;
     let mut n = 0usize;
     let mut bad: Vec<String> = Vec::new();
     for b1 in 0..=255u8 {
-        for cont in &conts {
-            let mut m = vec![b0, b1];
-            m.extend_from_slice(cont);
-            let cs = if slices.is_empty() { vec![m.clone()] } else { chunks_of(&m, &slices) };
-            let mut tasks: Vec<String> = pre.clone();
+        for m in gen(b1) {
+            let cs = if slices.is_empty() { vec![m.clone()] } else { chunks_of(&m, slices) };
+            let mut tasks: Vec<String> = pre.to_vec();
             tasks.push("F".into());
             for c in cs {
                 tasks.push(format!("C{}", hex(&c)));
             }
+            tasks.extend_from_slice(post);
             tasks.push("X".into());
-            let fuel = (ncaps + 2) * (3 * (pre_total + m.len()) + 16 * tasks.len() + 64);
+            let fuel = (ncaps + 2) * (3 * (extra + m.len()) + 16 * tasks.len() + 64);
             let fuel_s = fuel.to_string();
             let mut req: Vec<&str> = vec!["RUN", api, init, restore, caps, &fuel_s];
             for x in &tasks {
@@ -363,6 +369,26 @@ fn sweep(t: &[&str]) -> String {
         }
     }
     format!("n={} hash={} bad={}", n, h, if bad.is_empty() { "-".to_string() } else { bad.join(",") })
+}
+
+// SWEEP <api> <init> <restore> <caps> <b0> <slices|-> <cont,cont,..> <pre tasks joined by +|->
+//   member = b0 b1 cont
+fn sweep(t: &[&str]) -> String {
+    let b0: u8 = t[5].parse().unwrap();
+    let conts: Vec<Vec<u8>> = t[7].split(',').map(|c| unhex(c)).collect();
+    sweep_core(t[1], t[2], t[3], t[4], &parse_list(t[6]), &task_list(t[8]), &[], &|b1| {
+        conts.iter().map(|c| { let mut m = vec![b0, b1]; m.extend_from_slice(c); m }).collect()
+    })
+}
+
+// TSWEEP <api> <init> <restore> <caps> <t0> <slices|-> <head,head,..> <post tasks joined by +|-> <pre tasks|->
+//   member = head t0 t1 (its last bytes are what the concatenator holds back), followed by the post tasks
+fn tsweep(t: &[&str]) -> String {
+    let t0: u8 = t[5].parse().unwrap();
+    let heads: Vec<Vec<u8>> = t[7].split(',').map(|c| unhex(c)).collect();
+    sweep_core(t[1], t[2], t[3], t[4], &parse_list(t[6]), &task_list(t[9]), &task_list(t[8]), &|t1| {
+        heads.iter().map(|hd| { let mut m = hd.clone(); m.push(t0); m.push(t1); m }).collect()
+    })
 }
 
 fn enc(t: &[&str]) -> String {
@@ -469,6 +495,7 @@ fn main() {
     serve(|t| match t[0] {
         "RUN" => run(t),
         "SWEEP" => sweep(t),
+        "TSWEEP" => tsweep(t),
         "ENC" => enc(t),
         "DEC" => dec(t),
         "DECG" => decg(t),
